@@ -740,10 +740,9 @@ fn runseq_trace(limit: usize, tl: usize, unit: usize) {
                     let mime = mime_of(op.id as u32);
                     let route = ROUTES[op.route as usize];
                     let c = &mut cache;
-                    // (a panicking set is logged like any other set: the lookups that follow tell)
-                    let _ = catch_unwind(AssertUnwindSafe(move || c.set(route, op.host as usize, data, mime)));
+                    let panicked = catch_unwind(AssertUnwindSafe(move || c.set(route, op.host as usize, data, mime))).is_err();
                     seq += 1;
-                    out_line(&event("set", seq, 0, route, op.host as usize, size, hash, &mime.to_string(), vnow, vnow, None, limit * unit, tl, 0));
+                    out_line(&event("set", seq, 0, route, op.host as usize, size, hash, &mime.to_string(), vnow, vnow, None, limit * unit, tl, if panicked { 2 } else { 0 }));
                     keys.retain(|k| *k != (op.route, op.host));
                     keys.insert(0, (op.route, op.host));
                 }
